@@ -209,7 +209,8 @@ def gen_spec(rng, backend=None, max_n=3):
         m = rng.randrange(n)
         u = rng.random()
         if u < 0.45:
-            opsl.append({"op": "Catstate", "p": [_r3(rng.uniform(0.4, 1.2)), _r3(rng.uniform(0, 1)), rng.choice([0, 1])], "m": [m], "dg": False,
+            # (exact zeros of every preparation parameter: that is where shortcuts live)
+            opsl.append({"op": "Catstate", "p": [0.0 if rng.random() < 0.2 else _r3(rng.uniform(0.4, 1.2)), rng.choice([0.0, _r3(rng.uniform(0, 1))]), rng.choice([0, 1])], "m": [m], "dg": False,
                          "rep": rng.choice(["complex", "complex", "real"])})
         elif u < 0.7:
             opsl.append({"op": "GKP", "state": [rng.choice([0.0, HALFPI, 0.6]), rng.choice([0.0, 0.4])], "eps": rng.choice([0.35, 0.5]), "m": [m], "dg": False})
@@ -218,7 +219,7 @@ def gen_spec(rng, backend=None, max_n=3):
     for j in range(rng.randint(1, 6)):
         opsl.append(gen_op(rng, n, backend, first=(j == 0)))
     if backend == "bosonic" and rng.random() < 0.6:
-        opsl.append({"op": "MSgate", "p": [rng.choice([1, 1, -1]) * _r3(rng.uniform(0.1, 0.6)), rng.choice([0.0, _r3(rng.uniform(-1, 1))]), _r3(rng.uniform(0.8, 1.5)), rng.choice([1.0, _r3(rng.uniform(0.7, 1.0))])],
+        opsl.append({"op": "MSgate", "p": [rng.choice([1, 1, -1, 0]) * _r3(rng.uniform(0.1, 0.6)), rng.choice([0.0, _r3(rng.uniform(-1, 1))]), _r3(rng.uniform(0.8, 1.5)), rng.choice([1.0, _r3(rng.uniform(0.7, 1.0))])],
                      "avg": rng.random() < 0.35, "m": [rng.randrange(n)], "dg": False})
         if rng.random() < 0.5:
             opsl.append(gen_op(rng, n, backend))
